@@ -26,6 +26,9 @@ LEVEL_TEXT.update({
     'C11': 'Unbounded deductive proof (Verus) that every operation of the per-signal trap record preserves "installed disposition = max(internal need, user action)" from every state, refuses to trap or reset an initially ignored signal without override, leaves everything unchanged on failure, and handles the pending flag exactly once per catch; an inductive invariant over all histories, which is what the property quantifies over.',
     'C08': 'Unbounded deductive proof (Verus) of the trap-reset clause only (command traps reset to default with the parent state saved, ignores kept, on subshell entry). The rest of C08 (isolation of all other state under every interleaving) is outside what a function contract can state and is not claimed.',
 })
+LEVEL_TEXT.update({
+    'C01': 'Unbounded deductive proof (Verus) for the field-splitting kernel only: Ranges::next equals a reference IFS splitter on every input, and classification marks only unquoted expansion results as separators. The statement as a whole (all expansion forms x all shell states) runs through async code and is not decided.',
+})
 NOTE = {
     'C03': 'Trusted: Verus/Z3, vstd specs of checked arithmetic, assumed specs of checked_shl/shr/neg, Option::filter, str::parse (uninterpreted), Display for Value, the Env implementor contract. Not covered: eval()/parser structure, tokenizer, non-decimal variable values (F3).',
     'C12': 'Trusted: Verus/Z3, Kani/CBMC, assumed contracts for slab::Slab and (in Kani) a linear-scan stand-in for std HashMap; selectors assumed in Verus and bounded-checked in Kani (<= 3 slots quick); pid-reuse precondition from the property quantifier.',
@@ -33,6 +36,9 @@ NOTE = {
 NOTE.update({
     'C11': 'Trusted: Verus/Z3; model SignalSystem trait (sync, &mut self); async/await stripped; hash_map::Entry contract used for btree_map::Entry; derived PartialEq/Ord assumed structural. Not covered: TrapSet dispatch, timing of trap execution.',
     'C08': 'Decides one clause of C08 (trap reset on subshell entry) and nothing else; same trusted base as C11.',
+})
+NOTE.update({
+    'C01': 'Kernel only (field splitting). Trusted: Verus/Z3, vstd iterator model; IFS membership uninterpreted; reference splitter is my reading of XCU 2.6.5. Not covered: parameter expansion modifiers, nounset, $@/$* joining, quote removal, read, lexer.',
 })
 TECH = {
     'C03': 'contract-based deductive verification (Verus, Z3) of mechanically extracted real functions',
@@ -43,6 +49,11 @@ TECH = {
 TECH.update({
     'C11': 'contract-based deductive verification (Verus, Z3): inductive invariant of the per-signal trap record',
     'C08': 'contract-based deductive verification (Verus, Z3) of GrandState::enter_subshell / ignore',
+})
+
+
+TECH.update({
+    'C01': 'contract-based deductive verification (Verus, Z3) of the IFS splitting state machine against a reference automaton',
 })
 
 
